@@ -8,9 +8,20 @@ Regenerated from /repo's current tree on every run:
     the widths of the context's length fields: a probe C program compiled against the
     headers (so implicit enum values and typedefs are resolved by the compiler, not by a
     regular expression),
-  * the initial free-lane stack of every family: the `unused_lanes` literals of the manager
-    init function its context layer calls (#define aliases resolved),
-  * the single-buffer thresholds of <algo>_job.asm.
+  * the initial free-lane stack of every family: by EXECUTING the family's real
+    _<algo>_ctx_mgr_init_<family> (a probe program linked against the freshly built archive) on
+    a junk-filled manager, twice with different junk, and reading the bytes of
+    mgr.unused_lanes back: the bytes ARE the configuration, no source text is parsed.  A field
+    the init leaves untouched (both junk patterns survive) means "no lane manager" (base,
+    single buffer).  Bytes that cannot be decoded as a stack of lane indices (nibble- or
+    byte-packed, 0xF/0xFF terminated or full) are NOT guessed at: the family is marked
+    not-understood, hfam_ok fails (the obligation over Gen/HashCfgGen.v is reported broken) and
+    the checks continue with the header bound ISAL_<A>_MAX_LANES (an upper bound on what any
+    manager of that algorithm can hold), never with a smaller guessed value,
+  * the manager init symbol each context layer uses: `nm` of <algo>_ctx_<family>.o (the
+    compiler has resolved the #define aliases),
+  * the single-buffer thresholds of <algo>_job.asm: informational only (nothing in the model,
+    the acceptor or the obligations depends on them; an unparsed one is reported as 0).
 Deliberately dumb: one source construct -> one record field; everything decided about the
 records is decided by Model/HashCfg.v (hconsts_ok, halgo_ok, hfam_ok, hfams_expected)."""
 import os, re, subprocess, tempfile
@@ -138,57 +149,113 @@ def _func_body(src, name):
     return None
 
 
-def decode_free(lits):
-    """lits: [(index, value, ndigits)] of the unused_lanes literal(s) -> free-lane list, top of
-    stack first.  Nibble-packed (terminator 0xF) or byte-packed (terminator 0xFF): whichever
-    decoding is a permutation of 0..n-1."""
-    lits = sorted(lits)
+def decode_stack(raw):
+    """raw bytes of mgr.unused_lanes after init -> (free-lane list top of stack first, pack width)
+    or None when the bytes are not a stack of lane indices in either packing (nibbles, then
+    bytes).  The stack is the LONGEST prefix of entries that is a permutation of 0..k-1; it must
+    be followed by the all-ones terminator, by the end of the field, or end on a 64-bit word
+    boundary with nothing but zeros behind it (md5 keeps a 4-word field and the 16-lane family
+    fills exactly one word).  Anything else is not understood."""
+    v = int.from_bytes(raw, "little")
     for width in (4, 8):
-        ents = []
-        for _, v, nd in lits:
-            for k in range(max(1, (nd * 4 + width - 1) // width)):
-                ents.append((v >> (k * width)) & ((1 << width) - 1))
-        if sorted(ents) == list(range(len(ents))):
-            return ents, width                     # every entry is a lane (no terminator fits)
-        if ents and ents[-1] == (1 << width) - 1 and sorted(ents[:-1]) == list(range(len(ents) - 1)):
-            return ents[:-1], width
-    raise RuntimeError("cannot decode unused_lanes literal(s) %s" % [(i, hex(v)) for i, v, _ in lits])
-
-
-def lane_stack(repo, algo, fam):
-    """-> (free list, pack width, init function name) for the manager this family's context
-    layer initialises; ([], 0, name) when the init function sets up no lanes (base, single buffer)"""
-    d = os.path.join(repo, algo + "_mb")
-    ctx_src = _strip_comments(_read(os.path.join(d, "%s_ctx_%s.c" % (algo, fam))))
-    body = _func_body(ctx_src, "_%s_ctx_mgr_init_%s" % (algo, fam))
-    if body is None:
-        raise RuntimeError("no definition of _%s_ctx_mgr_init_%s" % (algo, fam))
-    m = re.search(r"\b(_%s_[ms]b_mgr_init_[a-z0-9_]+)\s*\(" % algo, body)
-    if not m:
-        return [], 0, None
-    init = m.group(1)
-    # #define aliases in the internal headers
-    hdrs = "".join(_read(os.path.join(repo, "include", h)) for h in ("%s_mb.h" % algo, "%s_mb_internal.h" % algo)
-                   if os.path.exists(os.path.join(repo, "include", h)))
-    for _ in range(4):
-        a = re.search(r"#\s*define\s+%s\s+(_[a-z0-9_]+)" % re.escape(init), hdrs)
-        if not a:
-            break
-        init = a.group(1)
-    ibody = None
-    for f in sorted(os.listdir(d)):
-        if f.endswith(".c"):
-            ibody = _func_body(_strip_comments(_read(os.path.join(d, f))), init)
-            if ibody is not None:
+        n = len(raw) * 8 // width
+        ents = [(v >> (k * width)) & ((1 << width) - 1) for k in range(n)]
+        term = (1 << width) - 1
+        best = 0
+        seen = set()
+        for k, e in enumerate(ents):
+            if e in seen:
                 break
-    if ibody is None:
-        raise RuntimeError("no C definition of %s" % init)
-    lits = [(int(i or 0), int(v, 16), len(v) - 2) for i, v in
-            re.findall(r"unused_lanes\s*(?:\[\s*(\d+)\s*\])?\s*=\s*(0[xX][0-9a-fA-F]+)", ibody)]
-    if not lits:
-        return [], 0, init
-    free, width = decode_free(lits)
-    return free, width, init
+            seen.add(e)
+            if max(seen) == k:
+                best = k + 1
+        if best == 0:
+            continue
+        rest = ents[best:]
+        if not rest or rest[0] == term or ((best * width) % 64 == 0 and not any(rest)):
+            return ents[:best], width
+    return None
+
+
+def init_symbol(libdir, algo, fam):
+    """the manager init function the context layer of (algo, fam) uses, from its object file"""
+    obj = os.path.join(libdir, "obj", "%s_ctx_%s.o" % (algo, fam))
+    if not os.path.exists(obj):
+        return None
+    txt = subprocess.run(["nm", obj], stdout=subprocess.PIPE, stderr=subprocess.DEVNULL, text=True).stdout
+    m = sorted(set(re.findall(r"\b[UTt] (_%s_[ms]b_mgr_init_[a-z0-9_]+)" % algo, txt)))
+    return m[0] if m else None
+
+
+INIT_PROBE_HEAD = r"""
+#include <stdio.h>
+#include <stdint.h>
+#include <stdlib.h>
+#include <string.h>
+#include "multi_buffer.h"
+#include "md5_mb.h"
+#include "sha1_mb.h"
+#include "sha256_mb.h"
+#include "sha512_mb.h"
+#include "sm3_mb.h"
+#define RUN(lc, UC, fam) do { \
+        extern void _##lc##_ctx_mgr_init_##fam(void *); \
+        for (int j = 0; j < 2; j++) { \
+                ISAL_##UC##_HASH_CTX_MGR *m = aligned_alloc(64, (sizeof *m + 63) / 64 * 64); \
+                memset(m, j ? 0x11 : 0xEE, sizeof *m); \
+                _##lc##_ctx_mgr_init_##fam(m); \
+                printf(#lc " " #fam " %d ", j); \
+                const unsigned char *p = (const unsigned char *) &m->mgr.unused_lanes; \
+                for (size_t k = 0; k < sizeof m->mgr.unused_lanes; k++) printf("%02x", p[k]); \
+                printf("\n"); fflush(stdout); free(m); \
+        } } while (0)
+int main(void)
+{
+"""
+
+
+def executed_init(repo, libdir, pairs):
+    """{(algo, fam): (bytes after init on 0xEE junk, bytes after init on 0x11 junk)}; a pair is
+    missing when the probe could not be built or died before reaching it"""
+    src = INIT_PROBE_HEAD + "".join("        RUN(%s, %s, %s);\n" % (a, a.upper(), f) for a, f in pairs) + "        return 0;\n}\n"
+    out = ""
+    with tempfile.TemporaryDirectory(prefix="hashcfg-", dir="/var/tmp") as d:
+        c = os.path.join(d, "initprobe.c")
+        with open(c, "w") as fh:
+            fh.write(src)
+        exe = os.path.join(d, "initprobe")
+        p = subprocess.run(["gcc", "-O0", "-w", "-I", os.path.join(repo, "include"), "-I", repo, c,
+                            os.path.join(libdir, "isa-l_crypto.a"), "-o", exe],
+                           stdout=subprocess.PIPE, stderr=subprocess.STDOUT, text=True, timeout=300)
+        if p.returncode == 0:
+            try:
+                out = subprocess.run([exe], stdout=subprocess.PIPE, stderr=subprocess.DEVNULL, text=True, timeout=60).stdout
+            except subprocess.TimeoutExpired as e:
+                out = (e.stdout or b"").decode() if isinstance(e.stdout, bytes) else (e.stdout or "")
+    res = {}
+    for l in out.split("\n"):
+        t = l.split()
+        if len(t) == 4:
+            res.setdefault((t[0], t[1]), {})[int(t[2])] = bytes.fromhex(t[3])
+    return {k: (v[0], v[1]) for k, v in res.items() if 0 in v and 1 in v}
+
+
+def lane_facts(raw_pair, max_lanes):
+    """-> dict(free, pack, understood, why) from the two read-backs of unused_lanes"""
+    if raw_pair is None:
+        return {"free": [], "pack": 0, "understood": False, "why": "the init function could not be executed"}
+    a, b = raw_pair
+    if a == bytes([0xEE]) * len(a) and b == bytes([0x11]) * len(b):
+        return {"free": [], "pack": 0, "understood": True, "why": "init leaves unused_lanes untouched: no lane manager"}
+    if a != b:
+        return {"free": [], "pack": 0, "understood": False, "why": "init defines unused_lanes only partly (%s / %s)" % (a.hex(), b.hex())}
+    d = decode_stack(a)
+    if d is None:
+        return {"free": [], "pack": 0, "understood": False, "why": "unused_lanes after init is not a stack of lane indices: %s" % a.hex()}
+    free, width = d
+    if len(free) > max_lanes:
+        return {"free": [], "pack": 0, "understood": False, "why": "%d lanes after init but the header says MAX_LANES = %d" % (len(free), max_lanes)}
+    return {"free": free, "pack": width, "understood": True, "why": "read back after executing init: %s" % a.hex()}
 
 
 def thresholds(repo, algo):
@@ -211,12 +278,22 @@ def config(repo, libdir):
     """everything, as one python dict (the checks use it too)"""
     kv = probe(repo)
     fams = []
-    for algo, fam in families(libdir):
-        free, width, init = lane_stack(repo, algo, fam)
+    prs = families(libdir)
+    ex = executed_init(repo, libdir, prs)
+    for algo, fam in prs:
+        lf = lane_facts(ex.get((algo, fam)), kv[algo + ".max_lanes"])
+        free = lf["free"]
         thr = fam_threshold(thresholds(repo, algo), algo, fam)
-        fams.append({"algo": algo, "fam": fam, "free": free, "pack": width, "init": init, "lanes": len(free),
-                     "sync": len(free) == 0, "thr": min(thr, len(free)) if free else 0, "thr_src": thr,
-                     "mgr": mgr_symbols(libdir, algo, fam)})
+        mgr = mgr_symbols(libdir, algo, fam)
+        if lf["understood"] and not free and mgr and not any("_sb_mgr_" in x for x in mgr):
+            # a context layer that calls a multi-buffer manager whose init set up no lane: not understood
+            lf = dict(lf, understood=False, why="calls %s but its init defines no free lane" % mgr)
+        # what the checks use as the number of lanes: the decoded stack when understood, otherwise
+        # the header's upper bound (never a smaller guess)
+        bound = len(free) if lf["understood"] else kv[algo + ".max_lanes"]
+        fams.append({"algo": algo, "fam": fam, "free": free, "pack": lf["pack"], "init": init_symbol(libdir, algo, fam),
+                     "lanes": bound, "understood": lf["understood"], "why": lf["why"],
+                     "sync": lf["understood"] and len(free) == 0, "thr": min(thr, bound), "thr_src": thr, "mgr": mgr})
     algos = {}
     for a in ALGOS:
         n = kv[a + ".ivn"]
@@ -232,7 +309,7 @@ def config(repo, libdir):
 def generate(repo, libdir, cfg=None):
     cfg = cfg or config(repo, libdir)
     c = cfg["consts"]
-    L = ["(* GENERATED by tr/hash_cfg.py from %s and the built archive - do not edit. *)" % "include/*.h, *_mb/*_mgr_init_*.c, *_mb/*_job.asm",
+    L = ["(* GENERATED by tr/hash_cfg.py from %s and the built archive - do not edit. *)" % "include/*.h, the executed manager init functions, *_mb/*_job.asm",
          "From Coq Require Import NArith List String.",
          "From ISAL Require Import Spec.MD Model.HashCtx Model.HashCfg.",
          "Import ListNotations.", "Local Open Scope string_scope.", "",
@@ -257,8 +334,9 @@ def generate(repo, libdir, cfg=None):
     L.append("Definition gen_hfams : list hfam := [")
     rows = []
     for f in cfg["fams"]:
-        rows.append('  {| hf_algo := "%s"; hf_fam := "%s"; hf_free := [%s]%%nat; hf_sync := %s; hf_sb_threshold := %d |}' % (
-            f["algo"], f["fam"], "; ".join(str(x) for x in f["free"]), "true" if f["sync"] else "false", f["thr_src"] if f["free"] else 0))
+        rows.append('  {| hf_algo := "%s"; hf_fam := "%s"; hf_free := [%s]%%nat; hf_sync := %s; hf_understood := %s; hf_sb_threshold := %d |}' % (
+            f["algo"], f["fam"], "; ".join(str(x) for x in f["free"]), "true" if f["sync"] else "false",
+            "true" if f["understood"] else "false", f["thr_src"] if f["free"] else 0))
     L.append(";\n".join(rows) + "].")
     L += ["",
           "(* obligations: what Model/HashCtx.v, Spec/HashApiSpec.v and the Spec/<algo>.v records assume *)",
